@@ -93,6 +93,10 @@ var props = map[string]*propCfg{}
 func init() {
 	props["C10"] = &propCfg{Scenarios: []scenarioRef{{"transfer_clean", 2}, {"transfer_byz", 3}}, Level: "exploration",
 		Rule: "plans (layout, knobs, actors, fault steps) generated from the seed; a run is non-trivial if at least one piece write reached the simulated disk; distinct = distinct event-trace hashes among non-trivial runs"}
+	props["C04"] = &propCfg{Scenarios: []scenarioRef{{"lifecycle", 4}, {"transfer_byz", 1}}, OwnsCrash: true, Level: "exploration",
+		Rule: "random command sequences (start/stop/verify/announce/add peer by IP and host name/add tracker/stats/peers/trackers/webseeds/remove/close) with gaps from 0 to minutes, external corrupt/truncate/delete mutations at Stopped points, slow disk and slow tracker, injected write error; oracles: no crash, API calls return, stop/start/verify effects, truthful status at random samples, final convergence; non-trivial if a piece was written or more than two commands ran; distinct = distinct event-trace hashes among non-trivial runs"}
+	props["C05"] = &propCfg{Scenarios: []scenarioRef{{"crash", 1}}, Level: "fault_enumeration",
+		Rule: "downloads on the real filestorage over the simulated disk with crash snapshots (durable bytes + random subset of in-flight sectors + occasional volatile sectors, DB file copy) at seed-chosen write gates (begin/mid/end) and command points, optionally with files deleted from the image; each snapshot boots a fresh session whose claims (bitfield to an observer peer, Stats) are compared with the surviving files; non-trivial if at least one restart was checked; distinct = distinct event-trace hashes among non-trivial runs"}
 	props["C03"] = &propCfg{Scenarios: []scenarioRef{{"seeding", 1}}, Level: "exploration",
 		Rule: "seeding plans from the seed: layout, read-cache block size/capacity/TTL, parallel reads, request-queue and unchoke limits, partial seed, disk read errors, 1-5 scripted leechers issuing generated requests (aligned, unaligned, crossing cache-block multiples, invalid, for missing pieces, while choked, cancels); non-trivial if at least one block was received and checked; distinct = distinct event-trace hashes among non-trivial runs"}
 	props["C11"] = &propCfg{Scenarios: []scenarioRef{{"seeding", 2}, {"transfer_byz", 2}, {"transfer_clean", 1}}, Level: "exploration",
